@@ -112,6 +112,7 @@ struct CaseData
   bool noisy = false;
   double theta = 0;                // rotation angle (>= 0)
   double L = 1;                    // cloud size
+  bool decoratedCorrespondences = false;   // correspondence records with a non-zero distance and a non-unit weight
   std::array<LD, D + (D == 2 ? 1 : 3)> xTrue;   // (t, w)
 };
 
@@ -217,7 +218,15 @@ Eigen::Matrix<S, D + 1, D + 1> solve(const CaseData<S, D> & cd, bool pre, bool a
     for (const auto & a : cd.src) {src.push_back(makePoint<P, S, D>(a, S(1)));}
     for (const auto & a : cd.tgt) {tgt.push_back(makePoint<P, S, D>(a, S(1)));}
     for (const auto & a : cd.nrm) {nrm.push_back(makePoint<P, S, D>(a, cd.normalW));}
-    for (int r = 0; r < cd.n; ++r) {corr.emplace_back(static_cast<size_t>(cd.si[r]), static_cast<size_t>(cd.ti[r]));}
+    for (int r = 0; r < cd.n; ++r) {
+      if (cd.decoratedCorrespondences) {
+        // the records carry what a matching stage leaves in them (a squared distance, a weight); the statement minimises
+        // the plain sum of squared point-to-plane distances, so these fields have no say
+        corr.emplace_back(static_cast<size_t>(cd.si[r]), static_cast<size_t>(cd.ti[r]), 0.01 * (1 + r % 7), 0.25 + 0.5 * (r % 5));
+      } else {
+        corr.emplace_back(static_cast<size_t>(cd.si[r]), static_cast<size_t>(cd.ti[r]));
+      }
+    }
   }
   FindRigidTransformationByLeastSquares<P> est;
   if (warm) {
@@ -449,6 +458,8 @@ void body(vf::Ctx & c)
   const int reuseVariant = static_cast<int>(c.s.i("reused_estimator_variant", 0, 3));   // (aligned, homogeneous) bits
   c.label("estimator-reused(larger-problem-first)");
   const bool estimatorCopied = c.s.flag("estimator_copied_after_configuration");
+  cd.decoratedCorrespondences = c.s.flag("correspondence_records_carry_distance_and_weight", 1, 3);
+  if (cd.decoratedCorrespondences) {c.label("correspondence-records-with-distance-and-weight");}
   if (estimatorCopied) {c.label("estimator-copied-after-configuration");}
   c.commit();
 
